@@ -147,7 +147,9 @@ def search(seed, tier):
         f = lambda th, ph: torch.sin(a * th) * torch.cos(ph) + b
         gg = lambda th, ph: torch.cos(b * th + ph) - a
         r0, r1 = rng.choice([rng.uniform(0, 3), rng.uniform(0, 3), 0.0, 0]), rng.choice([rng.uniform(0, 3), rng.uniform(0, 3), 0.0, 0])
-        if abs(r0 - r1) < 1e-3:
+        if it % 4 == 3:       # thin shells and microscopic balls: the conditions are exact for every r_0 != r_1, not only at scale 1
+            r1 = r0 + rng.choice([1e-4, 1e-6, 1e-8, -1e-6, -1e-3])
+        if r0 == r1:
             continue
         k = rng.uniform(0.05, 4)
         th = torch.rand(n, 1) * 3.1; ph = torch.rand(n, 1) * 6.2
